@@ -15,6 +15,7 @@ from typing import Iterator, List, Set, Optional
 
 import os
 import glob
+import fnmatch
 
 from spil import Sid
 from spil import conf
@@ -144,6 +145,11 @@ class FindInPaths(FindByGlob):
                     continue
                 if not sid:
                     debug(f"Path did not generate sid: {path}")
+                    continue
+
+                # a "*" of the glob pattern may have matched across a value separator of the file name
+                if not all(fnmatch.fnmatchcase(str(sid.get(k)), str(v).replace(">", "*")) for k, v in search.fields.items()):
+                    debug(f"Found Sid does not match the search, skipped: {sid.uri} -- Search: {search.uri}")
                     continue
 
                 found_paths.add(path)
